@@ -18,7 +18,8 @@ def AddlOf (v a : Value) : Prop :=
 /-- the width facts of a translated package -/
 structure PkgW (row : InstrRow) (p : Pkg) : Prop where
   le : p.size ≤ p.maxSize
-  und : p.choices ≠ [] → p.maxSize = p.size + 2 ∧ p.size = row.indSz ∧ p.needsRes = true
+  und : p.choices ≠ [] → p.maxSize = p.size + 2 ∧ p.size = row.indSz ∧ p.needsRes = true ∧
+    opVal row.ind = .ok p.opCode
 
 theorem PkgW.of_nil {row : InstrRow} {p : Pkg} (h1 : p.size ≤ p.maxSize) (h2 : p.choices = []) : PkgW row p :=
   ⟨h1, fun h => absurd h2 h⟩
@@ -32,7 +33,7 @@ theorem offBody_w {ind : Bool} {row : InstrRow} {right : Str} {raw0 : Nat} {need
   all_goals first
     | (cases h; done)
     | (cases h; exact ⟨.of_nil (Nat.le_refl _) rfl, fun h => absurd rfl h⟩)
-    | (cases h; exact ⟨⟨by show row.indSz ≤ row.indSz + 2; omega, fun _ => ⟨rfl, rfl, rfl⟩⟩, fun _ => rfl⟩)
+    | (cases h; exact ⟨⟨by show row.indSz ≤ row.indSz + 2; omega, fun _ => ⟨rfl, rfl, rfl, ‹opVal row.ind = _›⟩⟩, fun _ => rfl⟩)
 
 theorem translateOffset_w {ind : Bool} {row : InstrRow} {left : Value} {right : Str} {raw0 : Nat} {p : Pkg}
     (h : translateOffset ind row left right raw0 = .ok p) :
